@@ -464,6 +464,49 @@ class SInt:
             return mki(self.e % z)
         raise Unmodelled('SInt % non-positive-constant')
 
+    # bit operations: shifts by constants are exact on mathematical integers; and/or/xor go through 32-bit
+    # vectors after *proving* (one solver query) that both operands lie in [0, 2**32) on this path
+    def __rshift__(self, k):
+        if type(k) is int and k >= 0:
+            return mki(self.e / z3.IntVal(2 ** k))
+        raise Unmodelled('SInt >> non-constant')
+
+    def __lshift__(self, k):
+        if type(k) is int and k >= 0:
+            return mki(self.e * z3.IntVal(2 ** k))
+        raise Unmodelled('SInt << non-constant')
+
+    def _bv32(self, o):
+        ctx = Ctx.cur
+        zs = []
+        for x in (self, o):
+            z = self._z(x)
+            if z is None:
+                return None
+            if isinstance(x, SInt):
+                keep = ctx.model_cache
+                r = ctx.check(z3.Or(z < 0, z >= 2 ** 32))
+                ctx.model_cache = keep
+                if r != z3.unsat:
+                    raise Unmodelled('bit operation on a symbolic int not known to be in [0, 2**32)')
+            elif not 0 <= int(x) < 2 ** 32:
+                raise Unmodelled('bit operation with a constant outside [0, 2**32)')
+            zs.append(z3.Int2BV(z, 32))
+        return zs
+
+    def _bit(self, o, f):
+        zs = self._bv32(o)
+        if zs is None:
+            return NotImplemented
+        return mki(z3.BV2Int(f(zs[0], zs[1])))
+
+    def __and__(self, o): return self._bit(o, lambda a, b: a & b)
+    def __or__(self, o): return self._bit(o, lambda a, b: a | b)
+    def __xor__(self, o): return self._bit(o, lambda a, b: a ^ b)
+    __rand__ = __and__
+    __ror__ = __or__
+    __rxor__ = __xor__
+
     def __bool__(self):
         return _br(self.e != 0)
 
@@ -975,6 +1018,75 @@ class SByteInt(SInt):
     def __init__(self, bv):
         self.bv = bv
         SInt.__init__(self, z3.BV2Int(bv))
+
+
+class SBVInt(SInt):
+    """a non-negative int that is known as a bit-vector term (ord() of a symbolic character, int(hex digits, 16)):
+    operations that can stay in the bit-vector theory (chr(), hex formatting) use `.bv` instead of going through
+    Int2BV(BV2Int(...))"""
+
+    def __init__(self, bv, ub=None):
+        self.bv = bv
+        self.ub = (1 << bv.size()) - 1 if ub is None else ub       # static upper bound of the value
+        SInt.__init__(self, z3.BV2Int(bv))
+
+    # arithmetic with constants / other bit-vector ints stays in the bit-vector theory (64-bit, no wrap-around
+    # possible below the static bound 2**62); anything else falls back to the mathematical-integer operations
+    def _wide(self, o):
+        if type(o) is int and 0 <= o < 2 ** 62:
+            return z3.BitVecVal(o, 64), o
+        if isinstance(o, SBVInt) and o.ub < 2 ** 62:
+            return (o.bv if o.bv.size() == 64 else z3.ZeroExt(64 - o.bv.size(), o.bv)), o.ub
+        return None
+
+    def _mk(self, bv, ub):
+        bv = z3.simplify(bv)
+        return bv.as_long() if z3.is_bv_value(bv) else SBVInt(bv, ub)
+
+    def __add__(self, o):
+        a, b = self._wide(self), self._wide(o)
+        if a is None or b is None or a[1] + b[1] >= 2 ** 62:
+            return SInt.__add__(self, o)
+        return self._mk(a[0] + b[0], a[1] + b[1])
+
+    __radd__ = __add__
+
+    def __sub__(self, o):
+        a, b = self._wide(self), self._wide(o)
+        if a is None or b is None:
+            return SInt.__sub__(self, o)
+        ctx = Ctx.cur
+        keep = ctx.model_cache
+        r = ctx.check(z3.ULT(a[0], b[0]))
+        ctx.model_cache = keep
+        if r != z3.unsat:
+            return SInt.__sub__(self, o)         # may go negative: mathematical integers
+        return self._mk(a[0] - b[0], a[1])
+
+    def __lshift__(self, k):
+        a = self._wide(self)
+        if a is None or type(k) is not int or k < 0 or (a[1] << k) >= 2 ** 62:
+            return SInt.__lshift__(self, k)
+        return self._mk(a[0] << k, a[1] << k)
+
+    def __rshift__(self, k):
+        a = self._wide(self)
+        if a is None or type(k) is not int or k < 0:
+            return SInt.__rshift__(self, k)
+        return self._mk(z3.LShR(a[0], k), a[1] >> k)
+
+    def _bw(self, o, f, ubf):
+        a, b = self._wide(self), self._wide(o)
+        if a is None or b is None:
+            return SInt._bit(self, o, f)
+        return self._mk(f(a[0], b[0]), ubf(a[1], b[1]))
+
+    def __and__(self, o): return self._bw(o, lambda a, b: a & b, lambda x, y: min(x, y))
+    def __or__(self, o): return self._bw(o, lambda a, b: a | b, lambda x, y: (1 << max(x.bit_length(), y.bit_length())) - 1)
+    def __xor__(self, o): return self._bw(o, lambda a, b: a ^ b, lambda x, y: (1 << max(x.bit_length(), y.bit_length())) - 1)
+    __rand__ = __and__
+    __ror__ = __or__
+    __rxor__ = __xor__
 
 
 def mk_seq(el, kind):
